@@ -1,10 +1,13 @@
 #!/bin/sh
-# tools/archive_refs_batch.sh C01 C02 ... : archive refN of /tmp/wr_<prop> as <prop>-refN (skips ones already archived)
+# tools/archive_refs_batch.sh <worktree-prefix> <first-index> C01 C02 ... : archive refN of <prefix><prop> as <prop>-ref<first-index+N-1>
+# (skips ones already archived), e.g. `archive_refs_batch.sh /tmp/wq_ 4 C03 C04` archives /tmp/wq_C03/ref1 as C03-ref4
+prefix=$1; first=$2; shift 2
 for p in "$@"; do
   for n in 1 2 3; do
-    d=/tmp/wr_$p/ref$n
+    d=$prefix$p/ref$n
+    id=$p-ref$((first + n - 1))
     [ -f $d/patch.diff ] && [ -f $d/demo.py ] || continue
-    [ -f /verif/refactors/$p-ref$n/meta.json ] && continue
-    /venv/bin/python /verif/tools/archive_ref.py /tmp/wr_$p ref$n $p-ref$n $p 2>&1 | grep "archived\|NOT CONF\|patch does not" | cut -c1-400
+    [ -f /verif/refactors/$id/meta.json ] && continue
+    /venv/bin/python /verif/tools/archive_ref.py $prefix$p ref$n $id $p 2>&1 | grep "archived\|NOT CONF\|patch does not" | cut -c1-400
   done
 done
